@@ -77,6 +77,10 @@ var c20Injs = []c20Inj{
 	{name: "continue-last-in-poryswitch-case-not-last-in-block", lines: []string{"poryswitch(PV) {", "SEL {", "continue", "}", "_ { o }", "}", "after"}, errLine: 2, multi: true},
 	{name: "continue-last-in-poryswitch-default-case-not-last-in-block", lines: []string{"poryswitch(PV) {", "NOPE { o }", "_ {", "q", "continue", "}", "}", "AfterL:", "after"}, errLine: 4, multi: true},
 	{name: "continue-last-in-nested-poryswitch-case-not-last-in-block", lines: []string{"poryswitch(PV) {", "SEL {", "poryswitch(PV) {", "SEL {", "continue", "}", "}", "}", "}", "after"}, errLine: 4, multi: true},
+	// a misplaced continue after a poryswitch whose colon-form case holds a nested poryswitch with empty cases (nothing a
+	// colon-form case sets up may outlive the case)
+	{name: "continue-not-last-after-colon-case-with-empty-nested-poryswitch", lines: []string{"poryswitch(PV) {", "NOPE: o", "_: poryswitch(PV) {", "NOPE2 {", "}", "_ {", "}", "}", "}", "while (flag(Q)) {", "q", "continue", "after", "}"}, errLine: 11, multi: true},
+	{name: "continue-not-last-after-colon-case-continue", lines: []string{"while (flag(Q0)) {", "poryswitch(PV) {", "NOPE: o", "_: continue", "}", "}", "while (flag(Q)) {", "q", "continue", "after", "}"}, errLine: 8, multi: true},
 	{name: "continue-last-in-if-in-poryswitch-case-is-legal-shape", lines: []string{"poryswitch(PV) {", "SEL {", "continue", "after", "}", "}"}, errLine: 2, multi: true},
 	{name: "duplicate-case", lines: []string{"switch (var(Q)) {", "case 1:", "q", "case 2:", "case 1:", "r", "}"}, errLine: 4},
 	{name: "duplicate-case-adjacent", lines: []string{"switch (var(Q)) {", "case 3:", "case 3:", "r", "}"}, errLine: 2},
